@@ -290,8 +290,114 @@ def _origin_independence(ctx):
     ctx.ob("R38.4", f"{RG}.axis_extent:origin-independence", ext.equals(Rat.atom("s") * 3), "the physical extent of an index interval is a difference of edges: symbolic origin cancels", ext.fmt(), "3 s")
 
 
+def _uniformity_origin(ctx):
+    """the constructor's uniformity verdict for equal widths does not depend on where the explicit grid sits"""
+    from .c37 import sc
+
+    ix = ctx.index
+    ci = ix.cls(RG)
+    ctx.unit(ci.lookup_method("__post_init__").where())
+    s, n = Fr(1, 4), 6
+    eps = Fr(1, 2**23)
+    origins = {"centred": -s * n / 2, "origin 0": Fr(0), "far positive": s * 4000, "entirely negative": -s * (n + 250), "far negative": -s * (n + 4000)}
+    rows, bad = {}, []
+    for jitter in (False, True):
+        for label, o in origins.items():
+            edges = [o + s * i for i in range(n + 1)]
+            if jitter:  # the width jitter of a translated single-precision grid: a few ulp of the largest coordinate
+                M = max(abs(e) for e in edges)
+                edges = [e + (2 * eps * M if i % 2 else 0) for i, e in enumerate(edges)]
+            it = ctx.fresh_interp()
+            _np_model(it)
+            it.ext_handlers["object.__setattr__"] = lambda it_, a, k: a[0].attrs.__setitem__(a[1], a[2])
+            other = [o + s * i for i in range(3)]
+            g = _grid(ctx, it, edges, other, other)
+            try:
+                it.call_method(g, "__post_init__")
+            except Raised as r:
+                raise AnalysisError(f"RectilinearGrid.__post_init__ raises on an equal-spaced grid ({label}): {r}")
+            u, us = g.attrs.get("_is_uniform"), g.attrs.get("_uniform_spacing")
+            rows[(label, jitter)] = u
+            if u is not True or us is None or (not jitter and not to_rat(sc(us)).equals(s)):
+                bad.append((label, "with ulp jitter" if jitter else "exact", u))
+    ctx.ob("R38.5", f"{RG}.__post_init__:uniformity-origin-independence", not bad and len(rows) == 10, "an explicit grid with equal widths (exactly, or up to a few ulp of its largest coordinate) is classified uniform, with its spacing, wherever it sits — centred, at 0, far out on the positive side or entirely in negative coordinates — so it takes the same solver paths as the two policies", bad[:3], "uniform for every origin")
+
+
+def _pinning_paths(ctx):
+    """place_objects pins the solver grid by the same route for all three descriptions: realise on the volume's full
+    shape first, then (under symmetry) keep the upper half of that realised grid.  Decided on abstract grids that
+    record the operations applied to them."""
+    import ast
+
+    from ..absint import StopAfter
+    from ..harness import stub_repo_calls
+    from ..values import Builtin
+
+    ix = ctx.index
+    f = ix.function("fdtdx.fdtd.initialization.place_objects")
+    ctx.unit(f.where())
+    stop = None
+    for st in f.node.body:
+        if isinstance(st, ast.If) and "grid" in ast.unparse(st.test) and "shape" in ast.unparse(st.test) and any(isinstance(x, ast.Raise) for x in st.body):
+            stop = st
+    if stop is None:
+        raise AnalysisError("place_objects no longer has the top-level grid-shape consistency test that ends the grid pinning")
+    V = ix.cls("fdtdx.objects.static_material.static.SimulationVolume")
+    CFG = ix.cls("fdtdx.config.SimulationConfig")
+    full = (6, 4, 10)
+    traces = {}
+    for sym in ((0, 0, 0), (0, 0, 1), (-1, 0, 1)):
+        red = tuple(n // 2 if sg else n for n, sg in zip(full, sym))
+        for label in ("UniformGrid", "QuasiUniformGrid", "RectilinearGrid"):
+            it = ctx.fresh_interp()
+
+            def realised(history, shape):
+                g = Obj(ix.cls(RG), {"shape": tuple(shape), "history": history}, "grid")
+                g.attrs["reduce_symmetric"] = Builtin("reduce_symmetric", lambda it_, a, k, _g=g: realised(_g.attrs["history"] + (("reduce_symmetric", tuple(a[0])),), tuple(n // 2 if sg else n for n, sg in zip(_g.attrs["shape"], a[0]))))
+                return g
+
+            if label == "RectilinearGrid":
+                grid = realised((("realised", full),), full)
+            else:
+                grid = Obj(ix.cls(UG if label == "UniformGrid" else QG), dict(spacing=Fr(1, 4), dx=Fr(1, 4), dy=Fr(1, 4), dz=Fr(1, 4), center=(0, 0, 0)), label)
+                grid.attrs["resolve"] = Builtin("resolve", lambda it_, a, k: realised((("realised", tuple(a[0])),), tuple(a[0])))
+            cfg = Obj(CFG, dict(grid=grid, symmetry=sym), "config")
+            vol = Obj(V, dict(name="volume", partial_grid_shape=full, partial_real_shape=(None, None, None)), "volume")
+            stub_repo_calls(
+                it,
+                {
+                    "check_not_tracing": lambda it_, a, k: None,
+                    "default_key": lambda it_, a, k: Rat.atom("key"),
+                    "_resolve_volume_name": lambda it_, a, k: "volume",
+                    "resolve_object_constraints": lambda it_, a, k: ({"volume": tuple((0, n) for n in full)}, {}),
+                    "reduce_resolved_slices": lambda it_, a, k, _r=red: ({"volume": tuple((0, n) for n in _r)}, {}, set(), _r),
+                },
+            )
+            it.stop_after.add(id(stop))
+            try:
+                it.call(it.closure_of(f), [[vol], cfg, []], {})
+                raise AnalysisError("place_objects returned before the grid was pinned")
+            except StopAfter as e:
+                found, out = e.env.lookup("config")
+            except Raised as r:
+                traces[(sym, label)] = f"raises {r.exc_name}"
+                continue
+            g = out.attrs.get("grid") if found and isinstance(out, Obj) else None
+            traces[(sym, label)] = (g.attrs.get("history"), g.attrs.get("shape")) if isinstance(g, Obj) and "history" in g.attrs else repr(g)[:60]
+    bad = []
+    for sym in ((0, 0, 0), (0, 0, 1), (-1, 0, 1)):
+        red = tuple(n // 2 if sg else n for n, sg in zip(full, sym))
+        want = ((("realised", full),) + ((("reduce_symmetric", sym),) if any(sym) else ()), red)
+        for label in ("UniformGrid", "QuasiUniformGrid", "RectilinearGrid"):
+            if traces[(sym, label)] != want:
+                bad.append((sym, label, traces[(sym, label)]))
+    ctx.ob("R38.6", "place_objects:grid-pinning-route", not bad and len(traces) == 9, "for a uniform policy, a quasi-uniform policy and an explicit grid alike the pinned solver grid is: realised on the volume's full shape, then (under symmetry) reduce_symmetric of that realised grid — never a policy re-resolved on the reduced shape (which has its own parity / centring rules)", bad[:3], "realised(full) [+ reduce_symmetric(symmetry)]")
+
+
 def run(ctx):
     with _positive_s():
+        _uniformity_origin(ctx)
+        _pinning_paths(ctx)
         _resolution(ctx)
         _time_step(ctx)
         _metric(ctx)
